@@ -324,6 +324,39 @@ def check_rel(report):
     r.need(n_same >= 2, "same-file outcomes of Address.rel", str(n_same))
 
 
+def check_alias_scope(report):
+    """C02.8 (seed C02e): the alias `proto.disambiguate('proto')` protects the `proto` module name inside EVERY class body the module
+    emits - nested messages bind their field names in their own class body, where `proto.Field(...)` of the following field is then
+    looked up.  So the name set that Proto.disambiguate decides on must be computed from ALL declarations (all_messages / all_enums),
+    directly or through the members it consults; a set built from the top-level `messages` / `enums` only misses nested fields."""
+    r = report.rule("C02.8", "Proto.disambiguate decides on names of all (nested) declarations", floor=1)
+    m = pm()
+    ci = m.classes.get("gapic.schema.api.Proto")
+    r.need(ci is not None and "disambiguate" in ci.members, "gapic.schema.api.Proto.disambiguate")
+    if ci is None or "disambiguate" not in ci.members:
+        return
+    refs, todo, seen = set(), ["disambiguate"], set()
+    while todo:
+        name = todo.pop()
+        if name in seen or name not in ci.members or getattr(ci.members[name], "node", None) is None:
+            continue
+        seen.add(name)
+        node = ci.members[name].node
+        if not isinstance(node, (ast.FunctionDef, ast.AsyncFunctionDef)):
+            continue
+        for n in ast.walk(node):
+            if isinstance(n, ast.Attribute) and isinstance(n.value, ast.Name) and n.value.id == "self":
+                refs.add(n.attr)
+                if n.attr in ("names",) or (n.attr in ci.members and n.attr not in ("messages", "enums", "all_messages", "all_enums")):
+                    todo.append(n.attr)
+    fn = ci.members["disambiguate"].node
+    r.instance({"members consulted by Proto.disambiguate": sorted(refs)})
+    missing = sorted({"all_messages", "all_enums"} - refs)
+    r.check(not missing, ci.module.path, fn.lineno, f"Proto.disambiguate consults {sorted(refs - {'disambiguate'})}, not {missing}",
+            "a field (or nested type) named like the alias inside a NESTED message is not seen: the emitted nested class body rebinds "
+            "`proto` and the next `proto.Field(...)` in it fails - the module cannot be imported, let alone round-trip the wire form")
+
+
 def run(report: core.Report):
     report.explanation = (
         "Slot agreement between the input descriptor and the emitted proto-plus declarations, decided on skeletons of "
@@ -338,3 +371,4 @@ def run(report: core.Report):
     if report.tier == "thorough":
         check_proto_template(report, Lib(core.ADS_TEMPLATES), ADS_PROTO_T, report.tier)
     check_python(report)
+    check_alias_scope(report)
